@@ -112,6 +112,17 @@ def check_history(case, stats):
             else:
                 r = parse_default(parser, text, stop)
                 want = fresh(text, "en", stop)
+        elif case.get("scanner_objects") and own and i % 2 == 1 and not stop:
+            # the document comes as a TokenScanner object; afterwards the same scanner (drained, unless the parse stopped early at the error limit) is parsed once more and read directly
+            sc = gh.TokenScanner(text)
+            r = gh.parse(sc, parser=parser, matcher=matcher, stop=False)
+            sc2 = gh.TokenScanner(text)
+            gh.parse(sc2, dflt)
+            drained_want = norm_result(gh.parse(sc2, dflt))
+            drained = norm_result(gh.parse(sc, parser=parser, matcher=matcher, stop=False))
+            if drained != drained_want or sc.read().eof() != sc2.read().eof():
+                raise Violation(case, "document #%d of the history was handed over as a scanner object; parsing that drained scanner again with the used parser gives %r, with fresh instances %r" % (
+                    i, drained, drained_want))
         elif case.get("clones") and own:
             # prototype / clone pattern: every document gets a copy.copy() of the one parser and of the one matcher (odd documents use the
             # prototypes themselves); copies share whatever the originals hold by reference
@@ -172,7 +183,7 @@ def unit_pool(a):
                         if k == 3 and a["sample"] and (n // a["nshards"]) % a["sample"] != a["seed"] % a["sample"]:
                             continue
                         yield {"sub": "history", "default": dflt, "names": list(hist), "items": [[POOL[h], s] for h, s in zip(hist, stops)], "check_dialects": n % 50 == 0,
-                               "own_matcher": not (dflt == "en" and n % 2), "dirty_matcher": n % 3 == 0, "mixed_call_styles": n % 5 == 0, "clones": n % 7 == 3}
+                               "own_matcher": not (dflt == "en" and n % 2), "dirty_matcher": n % 3 == 0, "mixed_call_styles": n % 5 == 0, "clones": n % 7 == 3, "scanner_objects": n % 7 == 5}
     sweep(stats, gen(), check_history)
     return stats
 
@@ -182,7 +193,7 @@ def g_history(s):
     for _ in range(s.rng(2, 5)):
         t = POOL[s.choice(sorted(POOL))] if s.int(3) == 0 else noisy.g_noisy(s)[0]
         items.append([t, s.int(4) == 0])
-    return {"sub": "history", "default": s.choice(["en", "en", "fr", "no"]), "items": items, "check_dialects": True, "own_matcher": bool(s.int(2)), "clones": s.int(5) == 0}
+    return {"sub": "history", "default": s.choice(["en", "en", "fr", "no"]), "items": items, "check_dialects": True, "own_matcher": bool(s.int(2)), "clones": s.int(5) == 0, "scanner_objects": s.int(5) == 0}
 
 
 def unit_sampled(a):
@@ -439,6 +450,43 @@ def check_schedule(case, stats):
     for i, (g, s) in enumerate(zip(got, solo)):
         if g != s:
             raise Violation(case, "parser %d interleaved with other parsers (schedule %r) produced a different result than alone: %s" % (i, case["schedule"], diff_text(g, s, "interleaved", "alone")))
+
+
+def check_nested(case, stats):
+    """one thread, two parsers: parser A's scanner, asked for its k-th line, first runs a whole parse of document B (a scanner that
+    resolves includes, a logging hook ...); both results equal the solo results - with explicit matchers and with the default one"""
+    x, y, k = case["docs"][0], case["docs"][1], case["k"]
+    (tx, dx), (ty, dy) = SCHED_DOCS[x], SCHED_DOCS[y]
+    stats.case((x, y, k, case["default_matcher"]), True, sample=case)
+    inner = []
+
+    class Nesting(gh.TokenScanner):
+        def __init__(self, text):
+            super().__init__(text)
+            self.n = 0
+
+        def read(self):
+            self.n += 1
+            if self.n == k:
+                inner.append(norm_result(parse_default(gh.Parser(), ty, False) if case["default_matcher"] else gh.parse(ty, dy)))
+            return super().read()
+    if case["default_matcher"]:
+        if dx != "en" or dy != "en":
+            return
+        outer = norm_result(parse_default(gh.Parser(), Nesting(tx), False))
+    else:
+        outer = norm_result(gh.parse(Nesting(tx), dx))
+    if outer != fresh(tx, dx, False):
+        raise Violation(case, "document %s parsed while another parse (%s) ran inside its line read #%d differs from parsing it alone: %s" % (x, y, k, diff_text(outer, fresh(tx, dx, False), "nested", "alone")))
+    if inner and inner[0] != fresh(ty, dy, False):
+        raise Violation(case, "document %s parsed inside line read #%d of another parse (%s) differs from parsing it alone: %s" % (y, k, x, diff_text(inner[0], fresh(ty, dy, False), "nested", "alone")))
+
+
+def unit_nested(a):
+    stats = Stats()
+    names = sorted(SCHED_DOCS)
+    sweep(stats, ({"sub": "nested", "docs": [x, y], "k": k, "default_matcher": dm} for x in names for y in names for k in range(1, len(SCHED_DOCS[x][0].split("\n")) + 2) for dm in (False, True)), check_nested)
+    return stats
 
 
 def unit_schedules(a):
@@ -740,6 +788,8 @@ def unit_fs(a):
 def replay(case, stats):
     if case["sub"] == "fs-history":
         return check_fs_history(case, stats)
+    if case["sub"] == "nested":
+        return check_nested(case, stats)
     return {"history": check_history, "stream-history": check_stream_history, "reset": check_reset, "schedule": check_schedule, "determinism": check_determinism, "twice": check_twice, "threads": check_threads, "first-use-race": check_first_use_race}[case["sub"]](case, stats)
 
 
@@ -754,6 +804,7 @@ def run(ctx):
     ctx.units("sampled-histories", unit_sampled, [{"n": 180 if q else 2000, "seed": ctx.seed, "shard": i} for i in range(8 if q else 16)], procs=16)
     ctx.units("matcher-reset", unit_reset, [{"n": 1500 if q else 8000, "seed": ctx.seed, "shard": i} for i in range(8 if q else 16)], procs=16)
     ctx.units("free-running-threads", unit_threads, [{"reps": 40 if q else 400, "race_reps": 1 if q else 6}])
+    ctx.units("nested-parses-one-thread", unit_nested, [{}])
     ctx.units("interleavings-exhaustive", unit_schedules, [{"maxreads": 5 if q else 7, "shard": i, "nshards": ns} for i in range(ns)], procs=ns)
     ctx.units("interleavings-sampled", unit_schedules_sampled, [{"n": 90 if q else 800, "seed": ctx.seed, "shard": i} for i in range(8 if q else 16)], procs=16)
     ctx.exhaustive = False
